@@ -8,6 +8,7 @@
 -/
 import MofunModel.Model.Hist
 import MofunModel.Model.TopoWide
+import MofunModel.Model.ExtendApi
 
 namespace Mofun.Hist
 
@@ -16,6 +17,10 @@ inductive OpW where
   | deleteI (slot : Nat) (idx : List Int)
   | getitemI (src dst : Nat) (idx : List Int)
   | extendSelf (slot : Nat) (off : Option Offsets) (map : List (Nat × Nat))
+  /-- `dst.extend(src, offsets, structure_index_map)` in the public spelling (Model/ExtendApi.lean): offsets of any
+      length (a shorter one is padded with zeros), map keys / values as python integers (negative = from the end; out
+      of range → IndexError before anything changes); `dst = src` is the object extended with itself -/
+  | extendA (dst src : Nat) (off : Option (List Nat)) (map : List (Int × Int))
 deriving Repr
 
 def stepW (s : State) : OpW → Except Err State
@@ -32,6 +37,15 @@ def stepW (s : State) : OpW → Except Err State
       let a ← getSlot s slot
       let r ← a.extendSelf off map
       putSlot s slot r
+  | .extendA dst src off map => do
+      let a ← getSlot s dst
+      let b ← getSlot s src
+      let r ← if dst = src then
+          (match normMap a.atoms.length a.atoms.length map with
+           | .error e => .error e
+           | .ok m => a.extendSelf (off.map padOffsets) m)
+        else a.extendApi b off map
+      putSlot s dst r
 
 def runW (s : State) : List OpW → Except Err State
   | [] => .ok s
